@@ -19,6 +19,8 @@ RULE = (
     "compared with the exact vertex enumeration of hrep(f)+hrep(K) (kind by dimension, vertex set within 1e-7). "
     "Helpers: get_segment_from_point_list on generated collinear lists equals the extreme-point segment; the two "
     "*_intersection_point_set helpers return only points on the segment and on the body's boundary. "
+    "Extra strata use small bodies whose vertices or cross-section points have colliding Point hashes (coordinates -1 / -2 "
+    "beside 0 / 1; hash(-1.0) == hash(-2.0) in CPython), cut by coordinate planes and by flats through their features. "
     "non-trivial = f meets K, or f is coplanar with the polygon/a face, or passes through a vertex or along an "
     "edge (exact classification); each case also draws int/float coordinates, a constructor form for f and a vertex-list rotation / face order and negation pattern for K; distinct = distinct (f, K)."
 )
@@ -180,6 +182,24 @@ def case_free(draw, kK, kf):
 
 
 @st.composite
+def case_quirk(draw, kK, kf):
+    """bodies with vertices (and cross-section points) whose Point hashes collide (coordinates -1 / -2 next to
+    0 / 1, hash(-1.0) == hash(-2.0) in CPython): results must not lose or merge such points"""
+    K = draw(GB.quirk_polyhedron() if kK == "K" else GB.quirk_polygon())
+    if kf == "PL" and kK == "K" and draw(st.booleans()):
+        # a coordinate plane at 0 or 1 (or through the colliding vertices) cutting the body
+        i = draw(st.integers(0, 2))
+        e = [F(0)] * 3
+        e[i] = F(draw(st.sampled_from((1, -1, 2))))
+        q = [F(draw(st.sampled_from((-1, -2, 0, 1)))) for _ in range(3)]
+        q[i] = F(draw(st.sampled_from((0, 1, 0, 1, -1, -2, F(1, 2)))))
+        return (("PL", tuple(q), tuple(e)), K, "quirk/axis-plane")
+    fts = ("V", "V", "E", "F", "I", "X")
+    f = draw(GB.flat_vs_body(K, kf, draw(st.sampled_from(fts)), draw(st.sampled_from(fts)), draw(st.sampled_from(fts))))
+    return (f, K, "quirk")
+
+
+@st.composite
 def helper_case(draw):
     p = draw(gen.lattice_point(5))
     d = draw(gen.direction(3))
@@ -212,5 +232,7 @@ def strata(tier):
         for rec in ("face", "parallel-in", "parallel-out", "tangent-V", "tangent-E"):
             out.append(Stratum("PL-%s/%s" % (kK, rec), "hyp", gen.with_variant(case_special_plane(kK, rec)), n))
         out.append(Stratum("PL-%s/free" % kK, "hyp", gen.with_variant(case_free(kK, "PL")), n))
+        for kf in ("P", "L", "H", "S", "PL"):
+            out.append(Stratum("%s-%s/hash-quirk" % (kf, kK), "hyp", gen.with_variant(case_quirk(kK, kf)), (60 if kf == "PL" else 30) if q else 1500))
     out.append(Stratum("helper/get_segment_from_point_list", "hyp", helper_case(), 300 if q else 10000))
     return out
